@@ -1,8 +1,19 @@
+from lib import common
 from checks import searchfam
 
 
 def run(ctx):
     searchfam.run_family(ctx, 1500, 20000)
+    quick = ctx.tier == "quick"
+    # limits inside the sub-searches of the k-shortest-paths algorithms: single-via queries under limits (its two
+    # sub-searches are plain searches whose outcomes are recorded separately), and Yen's algorithm under a limit against
+    # the same query without it (child processes)
+    out = ctx.harness(["ksp", "--random", "600" if quick else "8000", "--maxv", "8" if quick else "12"], timeout=3000)
+    scns = [(s, evs) for s, evs in common.split_scenarios(out) if s.get("itl", -1) >= 0 or s.get("szl", -1) >= 0]
+    out = ctx.harness(["ksp", "--yen-limits", "60" if quick else "600", "--maxv", "8" if quick else "10"], timeout=6000)
+    scns += common.split_scenarios(out)
+    ctx.extra["ksp_scenarios_under_limits"] = len(scns)
+    ctx.validate("Trace_Ksp", scns, label="k-shortest-paths under limits")
     ctx.rule = ("scenario = seeded random network (2..N vertices on a milli-degree lattice, multigraph with self loops, "
                 "metric and non-metric lengths) x query x algorithm x cost/access/frontier/limit configuration biased "
                 "towards this property; distinct by hash of the scenario; non-trivial = at least two successful edge "
